@@ -107,6 +107,15 @@ func (b Builder) Build(o output.Output) (string, error) {
 	return b.formatter.Format(head + body)
 }
 
+// absoluteAlias returns an alias for a package used by the template itself.
+// Such imports must not be rewritten by aliases defined in meta.imports.
+func absoluteAlias(a aliaser, path string) string {
+	if abs, ok := a.(interface{ AliasAbsolute(string) string }); ok {
+		return abs.AliasAbsolute(path)
+	}
+	return a.Alias(path)
+}
+
 func createDefaultFunctions(a aliaser, o output.Output) template.FuncMap {
 	tagsServices := make(map[string]map[string]struct{}) // tagsServices[tag][serviceID] = struct{}
 
@@ -124,22 +133,22 @@ func createDefaultFunctions(a aliaser, o output.Output) template.FuncMap {
 			return exporter.Export(input)
 		},
 		"importAlias": func(i string) string {
-			return a.Alias(i)
+			return absoluteAlias(a, i)
 		},
 		"containerAlias": func() string {
-			return a.Alias(consts.GontainerHelperPath + "/container")
+			return absoluteAlias(a, consts.GontainerHelperPath+"/container")
 		},
 		"groupErrorAlias": func() string {
-			return a.Alias(consts.GontainerHelperPath + "/grouperror")
+			return absoluteAlias(a, consts.GontainerHelperPath+"/grouperror")
 		},
 		"exporterAlias": func() string {
-			return a.Alias(consts.GontainerHelperPath + "/exporter")
+			return absoluteAlias(a, consts.GontainerHelperPath+"/exporter")
 		},
 		"callerAlias": func() string {
-			return a.Alias(consts.GontainerHelperPath + "/caller")
+			return absoluteAlias(a, consts.GontainerHelperPath+"/caller")
 		},
 		"copierAlias": func() string {
-			return a.Alias(consts.GontainerHelperPath + "/copier")
+			return absoluteAlias(a, consts.GontainerHelperPath+"/copier")
 		},
 		"isTagged": func(id string, tag string) bool {
 			_, ok := tagsServices[tag][id]
